@@ -4,14 +4,18 @@ from common import freephil, enc, obj_j, call_j, line_of, attr_j, AutoT, tokeniz
 from values import pval_j
 
 
-def gen(rng, nested=False, n_sources=None, variables=False, escapes=0, **kw):
-    """escapes: share of the text-typed defaults / source values written with lexical escapes (mgen.ESC_WORDS)"""
+def gen(rng, nested=False, n_sources=None, variables=False, escapes=0, lists=0, **kw):
+    """escapes: share of the text-typed defaults / source values written with lexical escapes (mgen.ESC_WORDS);
+    lists: share of the ints / floats defaults and source values drawn from mgen.LIST_SPELLINGS (brackets, commas, quotes,
+    the empty list)"""
     if escapes:
         kw["escapes"] = escapes
+    if lists:
+        kw["lists"] = lists
     tree = mgen.MasterGen(rng, depth=rng.choice([0, 1, 1, 2, 3]), nested_multiples=nested, **kw).tree()
     mt = mgen.render_master(tree)
     k = n_sources if n_sources is not None else rng.choice([0, 1, 1, 2, 3])
-    srcs = [mgen.SourceGen(rng, variables=variables, escapes=escapes).text(tree) for _ in range(k)]
+    srcs = [mgen.SourceGen(rng, variables=variables, escapes=escapes, lists=lists).text(tree) for _ in range(k)]
     return tree, mt, srcs
 
 
